@@ -200,7 +200,7 @@ def scalar_cases(tier):
 
 
 def plan(tier, seed):
-    cases = matrix_cases(tier) + pair_cases(tier) + squared_cases() + squared_seq_cases(tier) + scalar_cases(tier)
+    cases = matrix_cases(tier) + pair_cases(tier) + squared_cases() + squared_seq_cases(tier) + scalar_cases(tier) + sequence_cases(tier)
     size = 300
     shards = [cases[i:i + size] for i in range(0, len(cases), size)] + [[dict(kind='shipped')]]
     return dict(shards=shards, exhaustive=True,
@@ -209,7 +209,8 @@ def plan(tier, seed):
                       'pairs over 3 names, every line order, both orientations of mixed pairs, default line at every position; '
                       'squared/plain cut-offs: 4 names x 8 values x 4 orders of assignment, and every sequence of <= %d writes (parameter line or '
                       'attribute assignment, plain or squared, 2 values) with both values read in every intermediate state; every file also '
-                      'without final newline, with CRLF line ends and with trailing blank lines; scalar/list/dict lines: all ordered '
+                      'without final newline, with CRLF line ends and with trailing blank lines; every ordered pair (thorough: triple) of a pool of files '
+                      'read one after the other in one process, all objects verified afterwards; scalar/list/dict lines: all ordered '
                       'selections of %d of 12 lines; the shipped file with every created group type. non-trivial = distinct files '
                       'with at least one look-up') % (3 if tier == 'quick' else 4, 3 if tier == 'quick' else 4, 3 if tier == 'quick' else 4),
                 bounds=dict(cases=len(cases)), samples=[cases[50], cases[-1]])
@@ -231,20 +232,25 @@ def read(text, name='p.cfg', fmt='as-is'):
     return propka.input.read_parameter_file(path, propka.parameters.Parameters())
 
 
-def run_case(case, ctx, acc):
-    if case['kind'] in ('matrix', 'pairs', 'pairs2', 'scalars') and 'fmt' not in case:
-        for fmt in FORMATS:     # the same content written with each line-ending convention
-            run_case(dict(case, fmt=fmt), ctx, acc)
-        return
+def case_text(case):
     k = case['kind']
-    fmt = case.get('fmt', 'as-is')
+    if k == 'matrix':
+        return matrix_text(case)[0]
+    if k == 'pairs':
+        return pair_text(case)[0]
+    if k == 'pairs2':
+        return pair2_text(case)[0]
+    if k == 'scalars':
+        return ''.join(SCALAR_LINES[i] for i in case['lines'])
+    raise KeyError(k)
+
+
+def verify(case, p, acc, pristine=None):
+    """Look-ups on the Parameters object p read from the file of `case`, against the reference written from the statement."""
+    k = case['kind']
     v = []
-    if k == 'squared-seq':
-        v += squared_sequence(case, acc)
-        acc.case(nontrivial_key=jhash(case), outcome='squared-seq')
-    elif k == 'matrix':
+    if k == 'matrix':
         text, m = matrix_text(case)
-        p = read(text, fmt=fmt)
         im = p.interaction_matrix
         n = case['n']
         acc.extra['states'] += n
@@ -264,10 +270,12 @@ def run_case(case, ctx, acc):
                     v.append(('matrix-wrong-value', 'get_value(%s,%s)=%r expected %r' % (a, b, g1, want)))
             if im.get_value(NAMES[i], 'ZZZ') is not None or im.get_value('ZZZ', NAMES[i]) is not None:
                 v.append(('matrix-unknown-name', 'unknown name returns a value'))
-        acc.case(nontrivial_key=jhash(case), outcome='matrix-%d' % n)
+        for i in range(n, len(NAMES)):      # names the file does not declare
+            for j in range(len(NAMES)):
+                if im.get_value(NAMES[i], NAMES[j]) is not None or im.get_value(NAMES[j], NAMES[i]) is not None:
+                    v.append(('matrix-undeclared-name-has-value', 'get_value(%s,%s) is not None' % (NAMES[i], NAMES[j])))
     elif k in ('pairs', 'pairs2'):
         text, ref, default = pair_text(case) if k == 'pairs' else pair2_text(case)
-        p = read(text, fmt=fmt)
         pm = p.sidechain_cutoffs
         names = NAMES[:3]
         acc.extra['states'] += len(case.get('lines', case.get('script', []))) + 1
@@ -284,7 +292,71 @@ def run_case(case, ctx, acc):
                         'start' if case['default_at'] == 0 else 'end' if case['default_at'] >= nl else 'middle') \
                         if (a, b) not in ref else 'pairs-wrong-value'
                     v.append((ck, 'get_value(%s,%s)=%r expected %r' % (a, b, g1, want)))
-        acc.case(nontrivial_key=jhash(case), outcome='pairs-%d' % len(case.get('lines', case.get('script', []))))
+    elif k == 'scalars':
+        d = pristine if pristine is not None else propka.parameters.Parameters()
+        want = {0: ('Nmin', 123), 1: ('model_pkas', {'XYZ': 4.25}), 2: ('acid_list', ['XYZ']), 3: ('version', 'SimpleHB'),
+                4: ('shared_determinants', 1), 5: ('COO_HIS_exception', 2.5), 6: ('ions', {'QQ': 3.0}),
+                7: ('backbone_NH_hydrogen_bond', {'XYZ': [-0.5, 2.0, 3.0]}), 8: ('protein_group_mapping', {'XYZ-CG': 'COO'}),
+                9: ('desolvationPrefactor', -11.5)}
+        acc.extra['states'] += 1
+        acc.extra['transitions'] += len(case['lines'])
+        for i, (attr, val) in want.items():
+            got = getattr(p, attr)
+            exp = val if i in case['lines'] else (d[attr] if isinstance(d, dict) else getattr(d, attr))
+            if got != exp or type(got) is not type(exp):
+                v.append(('line-dispatch/%s' % attr, '%s=%r (%s) expected %r' % (attr, got, type(got).__name__, exp)))
+    return v
+
+
+SCALAR_ATTRS = ('Nmin', 'model_pkas', 'acid_list', 'version', 'shared_determinants', 'COO_HIS_exception', 'ions', 'backbone_NH_hydrogen_bond',
+                'protein_group_mapping', 'desolvationPrefactor')
+
+
+def sequence_cases(tier):
+    """Several parameter files read one after the other in one process; every object is verified after all reads."""
+    import copy
+    pool = []
+    pc = [c for c in pair_cases('quick') if c['kind'] == 'pairs' and len(c['lines']) <= 2 and c['default_at'] == 0]
+    pool += pc[:: max(1, len(pc) // (10 if tier == 'quick' else 24))]
+    mc = [c for c in matrix_cases('quick') if c['n'] in (1, 2, 3) and c['order'] == sorted(c['order'])]
+    pool += mc[:: max(1, len(mc) // (8 if tier == 'quick' else 20))]
+    sc = scalar_cases('quick')
+    pool += sc[:: max(1, len(sc) // (8 if tier == 'quick' else 20))]
+    out = []
+    for a in pool:
+        for b in pool:
+            out.append(dict(kind='read-sequence', files=[copy.deepcopy(a), copy.deepcopy(b)]))
+    if tier == 'thorough':
+        for a in pool[::3]:
+            for b in pool[::3]:
+                for c in pool[::3]:
+                    out.append(dict(kind='read-sequence', files=[copy.deepcopy(a), copy.deepcopy(b), copy.deepcopy(c)]))
+    return out
+
+
+def run_case(case, ctx, acc):
+    if case['kind'] in ('matrix', 'pairs', 'pairs2', 'scalars') and 'fmt' not in case:
+        for fmt in FORMATS:     # the same content written with each line-ending convention
+            run_case(dict(case, fmt=fmt), ctx, acc)
+        return
+    k = case['kind']
+    fmt = case.get('fmt', 'as-is')
+    v = []
+    if k == 'squared-seq':
+        v += squared_sequence(case, acc)
+        acc.case(nontrivial_key=jhash(case), outcome='squared-seq')
+    elif k == 'read-sequence':
+        d0 = propka.parameters.Parameters()
+        pristine = {a: __import__('copy').deepcopy(getattr(d0, a)) for a in SCALAR_ATTRS}
+        objs = [read(case_text(f), name='seq%d.cfg' % i) for i, f in enumerate(case['files'])]
+        for i, (f, p) in enumerate(zip(case['files'], objs)):
+            for ck, what in verify(f, p, acc, pristine=pristine):
+                v.append(('%s/after-reading-%d-files/file-%d' % (ck, len(objs), i + 1), what))
+        acc.case(nontrivial_key=jhash(case), outcome='read-sequence')
+    elif k in ('matrix', 'pairs', 'pairs2', 'scalars'):
+        p = read(case_text(case), fmt=fmt)
+        v += verify(case, p, acc)
+        acc.case(nontrivial_key=jhash(case), outcome={'matrix': 'matrix-%d' % case.get('n', 0), 'scalars': 'scalars'}.get(k, 'pairs-%d' % len(case.get('lines', case.get('script', [])))))
     elif k == 'squared':
         name, val, how = case['name'], case['value'], case['how']
         lines = {'plain': ['%s %r\n' % (name, val)], 'squared': ['%s_squared %r\n' % (name, val)],
@@ -305,22 +377,6 @@ def run_case(case, ctx, acc):
                 if getattr(p, other) != getattr(d, other):
                     v.append(('squared-leaks', 'setting %s changed %s' % (name, other)))
         acc.case(nontrivial_key=jhash(case), outcome='squared')
-    elif k == 'scalars':
-        text = ''.join(SCALAR_LINES[i] for i in case['lines'])
-        p = read(text, fmt=fmt)
-        d = propka.parameters.Parameters()
-        want = {0: ('Nmin', 123), 1: ('model_pkas', {'XYZ': 4.25}), 2: ('acid_list', ['XYZ']), 3: ('version', 'SimpleHB'),
-                4: ('shared_determinants', 1), 5: ('COO_HIS_exception', 2.5), 6: ('ions', {'QQ': 3.0}),
-                7: ('backbone_NH_hydrogen_bond', {'XYZ': [-0.5, 2.0, 3.0]}), 8: ('protein_group_mapping', {'XYZ-CG': 'COO'}),
-                9: ('desolvationPrefactor', -11.5)}
-        acc.extra['states'] += 1
-        acc.extra['transitions'] += len(case['lines'])
-        for i, (attr, val) in want.items():
-            got = getattr(p, attr)
-            exp = val if i in case['lines'] else getattr(d, attr)
-            if got != exp or type(got) is not type(exp):
-                v.append(('line-dispatch/%s' % attr, '%s=%r (%s) expected %r' % (attr, got, type(got).__name__, exp)))
-        acc.case(nontrivial_key=jhash(case), outcome='scalars')
     elif k == 'shipped':
         v += shipped(acc)
         acc.case(nontrivial_key='shipped', outcome='shipped')
